@@ -16,6 +16,8 @@ import Bmc.Driver.Conv
 import Bmc.Driver.Enc
 import Bmc.Driver.Sdr
 import Bmc.Driver.Enum
+import Bmc.Driver.Time
+import Bmc.Driver.Conc
 open Bmc.Driver
 
 def decTables : List (String × DecFn) := decTableBasic ++ decTableCore ++ decTableSess ++ decTableDcmi ++ decTableSdr ++ decTableSetup
@@ -51,6 +53,8 @@ def step (line : String) : String :=
   | id :: _cls :: "suites" :: args => s!"{id} {evalSuites args}"
   | id :: _cls :: "parse" :: args => s!"{id} {evalParse args}"
   | id :: _cls :: "dcmi" :: args => s!"{id} {evalDcmi args}"
+  | id :: _cls :: "time" :: args => s!"{id} {evalTime args}"
+  | id :: _cls :: "conc" :: args => s!"{id} {evalConc args}"
   | id :: _ => s!"{id} bad-op"
   | [] => ""
 
